@@ -459,8 +459,100 @@ def _force_cut(kind, d, r, cut, L):
     d["cut"] = cut
 
 
-def make(kind, rng, mode=None, spelling=None, cut=None):
+def builtin_qualifier_keys():
+    """the keys the exporters add themselves (values of `BioCantorQualifiers`, by introspection)"""
+    from inscripta.biocantor.io.gff3.constants import BioCantorQualifiers
+    return sorted({q.value for q in BioCantorQualifiers})
+
+
+TX_ADDED = ("transcript_id", "transcript_name", "transcript_biotype", "protein_id")     # TranscriptInterval.export_qualifiers
+CDS_ADDED = ("protein_id", "product")                                                   # CDSInterval.export_qualifiers
+FEAT_ADDED = ("feature_id", "feature_name", "feature_type")                             # FeatureInterval.export_qualifiers
+
+
+def _inherited_quals(r, names, must, old):
+    """parent-level qualifiers that ALREADY use keys under which the children add their own identifiers"""
+    q = dict(old or {})
+    keys = set(r.sample(names, r.randint(2, min(6, len(names)))))
+    keys |= {k for k in must if k in names}
+    for k in sorted(keys):
+        q[k] = [f"parent-level {k}"] + (["x y"] if r.random() < 0.3 else [])
+    return q
+
+
+def _strip(quals, names):
+    q = {k: v for k, v in (quals or {}).items() if k not in names}
+    return q or None
+
+
+def _inherit_gene(g, r, L, names, base):
+    """>= 2 coding transcripts with distinct identifiers / protein ids / products, none of the exporter keys in the
+    transcripts' own qualifiers, several of them in the gene's qualifiers"""
+    strand = g["txs"][0]["strand"]
+    txs = [t for t in g["txs"] if t.get("cds")][:2]
+    seen = {repr(t["blocks"]) + repr(t["cds"]["blocks"]) for t in txs}
+    for _ in range(200):
+        if len(txs) >= 2:
+            break
+        t = _tx_spec(r, L, strand=strand, coding=True, i=base + len(txs))
+        if t.get("cds") and repr(t["blocks"]) + repr(t["cds"]["blocks"]) not in seen:
+            seen.add(repr(t["blocks"]) + repr(t["cds"]["blocks"]))
+            txs.append(t)
+    for j, t in enumerate(txs):
+        t.update(id=f"T{base + j}", symbol=f"tx{base + j}", protein_id=f"P{base + j}", product=f"prod{base + j}")
+        t["qualifiers"] = _strip(t.get("qualifiers"), names)
+    g["txs"] = txs + [dict(t, qualifiers=_strip(t.get("qualifiers"), names)) for t in g["txs"] if not t.get("cds")][:1]
+    g["qualifiers"] = _inherited_quals(r, names, [r.choice(TX_ADDED), "product"], g.get("qualifiers"))
+
+
+def _inherit_fc(c, r, names, base):
+    for j, f in enumerate(c["feats"]):
+        f.update(id=f"F{base + j}", name=f"feat{base + j}", types=f.get("types") or ["promoter"])
+        f["qualifiers"] = _strip(f.get("qualifiers"), names)
+    c["qualifiers"] = _inherited_quals(r, names, [r.choice(FEAT_ADDED[:2])], c.get("qualifiers"))
+
+
+def _force_inherit(kind, d, r, L):
+    """rewrite the recipe so that the PARENT level of every hierarchy carries qualifiers under keys the children add
+    their identifiers to, with those keys absent from the children's own qualifiers (what an export that adopts the
+    parent's value sets instead of copying them needs in order to show)"""
+    names = builtin_qualifier_keys()
+    if kind == "gene":
+        _inherit_gene(d["gene"], r, L, names, 0)
+    elif kind == "featcoll":
+        _inherit_fc(d["fc"], r, names, 0)
+    elif kind == "annot":
+        if not d["annot"]["genes"]:
+            d["annot"]["genes"] = [_gene_spec(r, L, False, 0)]
+        for i, g in enumerate(d["annot"]["genes"]):
+            _inherit_gene(g, r, L, names, 10 * i)
+        for i, c in enumerate(d["annot"]["fcs"]):
+            _inherit_fc(c, r, names, 50 + 10 * i)
+    elif kind == "transcript":
+        t = d["tx"]
+        t.update(id="T0", symbol="tx0", protein_id="P0", product="prod0")
+        t["qualifiers"] = _inherited_quals(r, names, ["product", "protein_id"], _strip(t.get("qualifiers"), names))
+    elif kind == "cds":
+        c = d["cds"]
+        c.update(protein_id="P0", product="prod0")
+        c["qualifiers"] = _inherited_quals(r, names, ["product"], _strip(c.get("qualifiers"), names))
+    elif kind == "feature":
+        f = d["feat"]
+        f.update(id="F0", name="feat0", types=f.get("types") or ["promoter"])
+        f["qualifiers"] = _inherited_quals(r, names, ["feature_id"], _strip(f.get("qualifiers"), names))
+    d["inherit"] = True
+    d["named"] = True           # GFF3 export needs a sequence name
+
+
+INHERIT_KINDS = ("cds", "transcript", "feature", "gene", "featcoll", "annot")
+
+
+def make(kind, rng, mode=None, spelling=None, cut=None, inherit=False):
     """Draw a recipe. All randomness is consumed here; `recipe.build()` is deterministic.
+    `inherit` (kinds INHERIT_KINDS): the parent level (gene / feature collection; for the single-interval kinds the
+    interval itself) carries qualifiers under keys of `BioCantorQualifiers` (the keys the children's exporters add their
+    identifiers under) and the children do NOT have those keys; genes get >= 2 coding transcripts with distinct ids,
+    protein ids and products.  Drawn from a separate stream, so recipes without the flag are unchanged for a given seed.
     `spelling`: "e" = sequence types are given as SequenceType members, "s" = as plain strings ('chromosome'), None = draw.
     `cut` (chunk mode, kinds cds/transcript/gene/annot): "lo" | "hi" | "both" — the chunk window is guaranteed to cut the
     (primary) CDS on the low-coordinate side / high-coordinate side / both, so that the chunk-relative view has fewer
@@ -553,4 +645,6 @@ def make(kind, rng, mode=None, spelling=None, cut=None):
     if cut and mode == "chunk" and kind in CUT_KINDS:
         # a separate stream, so that recipes without `cut` are unchanged for a given seed
         _force_cut(kind, d, random.Random(rng.getrandbits(32)), cut, L)
+    elif inherit and kind in INHERIT_KINDS:
+        _force_inherit(kind, d, random.Random(rng.getrandbits(32)), L)
     return Recipe(kind, mode, d)
